@@ -145,6 +145,10 @@ def e_options(r):
     opts = {0, 1, 10**6}
     for row in r.rows[:2] + r.rows[-2:]:
         opts.update((max(0, row.length - 1), row.length, row.length + 1))
+    # thresholds around the bait length and the two overhangs (a short bait deep inside a long row)
+    bl = r.bait.end - r.bait.start + 1
+    for v in (bl, r.bait.start - r.start, r.end - r.bait.end):
+        opts.update((max(0, v - 1), max(0, v), v + 1))
     return sorted(opts)
 
 
@@ -209,7 +213,7 @@ def body(case, rec):
 
 op_strategy = st.one_of(
     st.sampled_from([["ds"], ["de"]]),
-    st.tuples(st.just("tlo"), st.integers(0, 20)).map(list),
+    st.tuples(st.just("tlo"), st.integers(0, 30)).map(list),
     st.tuples(st.just("tf"), st.sampled_from(["first", "last"]), st.booleans(), st.booleans()).map(list),
 )
 
@@ -242,7 +246,7 @@ def cases(draw):
     return case
 
 
-SMALL_OPS = [["ds"], ["de"], ["tlo", 0], ["tlo", 1], ["tlo", 3],
+SMALL_OPS = [["ds"], ["de"], ["tlo", 0], ["tlo", 1], ["tlo", 2], ["tlo", 3],
              ["tf", "first", False, False], ["tf", "last", False, False], ["tf", "first", True, False], ["tf", "last", False, True]]
 SMALL_KINDS = [("F", 1, 1), ("F", 2, 1), ("F", 3, 1), ("F", 2, -1), ("F", 3, -1), ("G", 1, 0), ("G", 2, 0)]
 
